@@ -20,6 +20,10 @@ type Tree struct {
 	Cfg   reg.Config `json:"cfg,omitempty"`
 	Pct   float64    `json:"pct,omitempty"`
 	Kids  []Tree     `json:"kids,omitempty"`
+	// Share (root only): identical sub-expressions are built once and the ONE instance is used
+	// at every place it occurs (the same strategy value listed twice in a group, a decorator
+	// applied once and used under two combinators)
+	Share bool `json:"share,omitempty"`
 }
 
 func (t Tree) String() string {
@@ -69,6 +73,20 @@ func (st Strat) BuildLeaf(plain bool, c reg.Config) strategy.Strategy {
 
 // Build constructs the strategy of the expression.
 func (t Tree) Build() strategy.Strategy {
+	if t.Share {
+		return t.build(map[string]strategy.Strategy{})
+	}
+	return t.build(nil)
+}
+
+func (t Tree) build(shared map[string]strategy.Strategy) (out strategy.Strategy) {
+	if shared != nil {
+		key := t.String() + fmt.Sprint(t.Cfg, t.Pct)
+		if s, ok := shared[key]; ok {
+			return s
+		}
+		defer func() { shared[key] = out }()
+	}
 	switch t.Op {
 	case "leaf":
 		st, _ := ByName(t.Leaf)
@@ -76,15 +94,15 @@ func (t Tree) Build() strategy.Strategy {
 	case "macdrsi":
 		return compound.NewMacdRsiStrategy()
 	case "inverse":
-		return decorator.NewInverseStrategy(t.Kids[0].Build())
+		return decorator.NewInverseStrategy(t.Kids[0].build(shared))
 	case "noloss":
-		return decorator.NewNoLossStrategy(t.Kids[0].Build())
+		return decorator.NewNoLossStrategy(t.Kids[0].build(shared))
 	case "stoploss":
-		return decorator.NewStopLossStrategy(t.Kids[0].Build(), t.Pct)
+		return decorator.NewStopLossStrategy(t.Kids[0].build(shared), t.Pct)
 	}
 	kids := make([]strategy.Strategy, len(t.Kids))
 	for i, k := range t.Kids {
-		kids[i] = k.Build()
+		kids[i] = k.build(shared)
 	}
 	switch t.Op {
 	case "and":
@@ -159,12 +177,19 @@ func (t Tree) Leaves() []string {
 func GenLeaf(t *rapid.T, names []string) Tree {
 	name := rapid.SampledFrom(names).Draw(t, "leaf")
 	st, _ := ByName(name)
-	c := st.GenConfig(t)
+	c := st.GenConfigLoose(t)
 	return Tree{Op: "leaf", Leaf: name, Cfg: c}
 }
 
-// GenTree draws an expression of the given maximal depth.
+// GenTree draws an expression of the given maximal depth; in half of the draws identical
+// sub-expressions share one instance.
 func GenTree(t *rapid.T, names []string, depth int) Tree {
+	tr := genTree(t, names, depth)
+	tr.Share = rapid.Bool().Draw(t, "share_instances")
+	return tr
+}
+
+func genTree(t *rapid.T, names []string, depth int) Tree {
 	if depth <= 0 || rapid.IntRange(0, 3).Draw(t, "stop") == 0 {
 		if rapid.IntRange(0, 19).Draw(t, "macdrsi") == 0 {
 			return Tree{Op: "macdrsi"}
@@ -175,16 +200,20 @@ func GenTree(t *rapid.T, names []string, depth int) Tree {
 	tr := Tree{Op: op}
 	switch op {
 	case "inverse", "noloss":
-		tr.Kids = []Tree{GenTree(t, names, depth-1)}
+		tr.Kids = []Tree{genTree(t, names, depth-1)}
 	case "stoploss":
 		tr.Pct = float64(rapid.IntRange(0, 31).Draw(t, "pct")) / 64
-		tr.Kids = []Tree{GenTree(t, names, depth-1)}
+		tr.Kids = []Tree{genTree(t, names, depth-1)}
 	case "split":
-		tr.Kids = []Tree{GenTree(t, names, depth-1), GenTree(t, names, depth-1)}
+		tr.Kids = []Tree{genTree(t, names, depth-1), genTree(t, names, depth-1)}
 	default:
 		k := rapid.IntRange(1, 3).Draw(t, "k")
 		for i := 0; i < k; i++ {
-			tr.Kids = append(tr.Kids, GenTree(t, names, depth-1))
+			if i > 0 && rapid.IntRange(0, 3).Draw(t, "same_as_previous") == 1 {
+				tr.Kids = append(tr.Kids, tr.Kids[i-1]) // the same member twice in a row
+				continue
+			}
+			tr.Kids = append(tr.Kids, genTree(t, names, depth-1))
 		}
 	}
 	return tr
